@@ -71,7 +71,7 @@ def translate(pyx=False):
     try:
         fn = {False: py2lean.generate, True: py2lean.generate_pyx, 'classes': py2lean.generate_classes,
               'classes2': py2lean.generate_classes2, 'classes3': py2lean.generate_classes3, 'isilen': py2lean.generate_isi_lengths,
-              'api': py2lean_api.generate_api}[pyx]
+              'api': py2lean_api.generate_api, 'apithresh': py2lean_api.generate_thresh, 'apitrain': py2lean_api.generate_train}[pyx]
         return fn(REPO), None
     except py2lean.Untranslatable as ex:
         return None, str(ex)
@@ -79,7 +79,7 @@ def translate(pyx=False):
         return None, 'source could not be read: %r' % ex
 
 
-GEN_MODULE = {False: 'Backend', True: 'BackendPyx', 'classes': 'Classes', 'classes2': 'Classes2', 'classes3': 'Classes3', 'isilen': 'IsiLengths', 'api': 'Api'}
+GEN_MODULE = {False: 'Backend', True: 'BackendPyx', 'classes': 'Classes', 'classes2': 'Classes2', 'classes3': 'Classes3', 'isilen': 'IsiLengths', 'api': 'Api', 'apithresh': 'ApiThresh', 'apitrain': 'ApiTrain'}
 
 
 def _imports_of(path):
@@ -516,6 +516,42 @@ def gen_tie_api(tier, rng):
         return _validate_ops(cases, lean_path, 'GenApiMain.lean')
     r = _family('api', os.path.join(LEAN_DIR, 'PySpikeVerif', 'Gen', 'Api.lean'), 'reconcile / merge',
                 ['pyspike/spikes.py (reconcile_spike_trains, reconcile_spike_trains_bi, merge_spike_trains)', 'pyspike/SpikeTrain.py (digest only: the constructor is modelled)'], val)
+    r['translator'] = 'harness/py2lean_api.py'
+    return r
+
+
+def gen_tie_thresh(tier, rng):
+    """pyspike/isi_lengths.py: default_thresh / default_thresh_ (Gen/ApiThresh.lean; the square of the threshold), C15"""
+    from . import gens
+    def val(lean_path):
+        n = 200 if tier == 'quick' else 1500
+        cases = [(op, f) for op, f, _ in gens.misc_cases(rng, n) if op == 'default_thresh_sq']
+        return _validate_ops(cases, lean_path, 'GenApiMain.lean')
+    r = _family('apithresh', os.path.join(LEAN_DIR, 'PySpikeVerif', 'Gen', 'ApiThresh.lean'), 'default_thresh',
+                ['pyspike/isi_lengths.py (default_thresh, default_thresh_; the generated functions return the radicand of the final np.sqrt)'], val)
+    r['translator'] = 'harness/py2lean_api.py'
+    return r
+
+
+def gen_tie_train(tier, rng):
+    """pyspike/SpikeTrain.py: get_spikes_non_empty, copy, sort (Gen/ApiTrain.lean), C18 / C19"""
+    from . import gens
+    from fractions import Fraction as Fr
+    def val(lean_path):
+        n = 120 if tier == 'quick' else 900
+        cases = []
+        for _ in range(n):
+            k = rng.randint(1, 4)
+            tfs = []
+            for _ in range(k):
+                a = Fr(rng.randint(-8, 8), 2); b = a + Fr(rng.randint(0, 12), 2) * rng.choice([1, 1, 1, -1])     # also t_end <= t_start
+                sp = [] if rng.random() < 0.4 else [a + Fr(rng.randint(0, 24), 4) for _ in range(rng.randint(1, 5))]
+                tfs.append(gens.train_field(sp, a, b))
+            for op in ('train_nonempty', 'train_copy', 'train_sort'):
+                cases.append((op, [gens.kw_field(), gens.idx_field(None)] + tfs))
+        return _validate_ops(cases, lean_path, 'GenApiMain.lean')
+    r = _family('apitrain', os.path.join(LEAN_DIR, 'PySpikeVerif', 'Gen', 'ApiTrain.lean'), 'SpikeTrain methods',
+                ['pyspike/SpikeTrain.py (get_spikes_non_empty, copy, sort)'], val)
     r['translator'] = 'harness/py2lean_api.py'
     return r
 
